@@ -279,7 +279,7 @@ class TypedNode(Node):
                             "Node.data already exists in parent"
                         )
             for n in topnodes:
-                self.add_child(n, before=before, deep=deep)
+                self.add_child(n, kind=n.kind, before=before, deep=deep)
             return
 
         # Check `before` now, so a refused call does not leave a registered,
@@ -460,7 +460,13 @@ class TypedNode(Node):
 
         See also :meth:`_add_from` and :ref:`iteration-callbacks`.
         """
-        return super().copy(add_self=add_self, predicate=predicate)
+        new_tree = self._tree.__class__()
+        if add_self:
+            root = new_tree.add(self, kind=self.kind)
+        else:
+            root = new_tree._root
+        root._add_from(self, predicate=predicate)
+        return new_tree
 
     def _add_from(
         self, other: TypedNode, *, predicate: PredicateCallbackType | None = None
